@@ -103,6 +103,15 @@ def workload(rng, tier):
             s = "".join(rng.choice(junk + "abcdef0123") for _ in range(rng.randrange(0, 12)))
         if ref_color(s) is None:
             cases.append((s, "noncolour"))
+    # valid colours padded with white space: Qt does not trim, so these are not colours
+    pads = [" ", "\t", "\n", "\r", "\u00a0", "\u2003", "\u3000", "\ufeff", "\x0b", "\x0c", "\u0085", "  "]
+    for _ in range(120 if tier == "quick" else 1200):
+        base = rng.choice(("#fff", "#8abc", "#102030", "#80102030", "red", "Transparent", rng.choice(kws),
+                           "#" + "".join(rng.choice(HEX) for _ in range(rng.choice((3, 4, 6, 8))))))
+        r = rng.random()
+        s = (rng.choice(pads) if r < 0.6 else "") + base + (rng.choice(pads) if r > 0.3 else "")
+        if ref_color(s) is None:
+            cases.append((s, "padded"))
     cases += [(s, "noncolour") for s in ("", "#", "##fff", "0xfff", "fff", "ffffff", "rgb(1,2,3)", "#ffffffffff",
                                           "rebeccapurple", "none", "currentColor", "grey50", "light gray")]
     return cases
@@ -177,6 +186,10 @@ def run(tier, seed, replay=None):
     # ---- end to end through the .ui for a sample, in three positions
     n_e2e = 150 if tier == "quick" else 1500
     picks = [rng.choice(cases) for _ in range(n_e2e)]
+    # the .ui path has its own code between the string and the parser: every padded / near-miss class goes through it
+    picks += [c for c in cases if c[1] == "padded"]
+    picks += rng.sample([c for c in cases if c[1] == "noncolour"], 150 if tier == "quick" else 1500)
+    picks += rng.sample([c for c in cases if c[1] == "keyword"], 100 if tier == "quick" else 740)
     picks += [("#abc", "hex3"), ("#8abc", "hex4"), ("#0a0b0c", "hex68"), ("#800a0b0c", "hex68"),
               ("Transparent", "keyword"), ("DarkSlateGray", "keyword"), ("darkslategrey", "keyword")]
     if replay:
